@@ -15,20 +15,19 @@ Theorem T08_no_missing_addr : forall (cs : list str) sock,
 Proof. exact (fun cs sock => conn_addr_not_nil rd_chunks src_cfg cs sock ob_no_nil). Qed.
 Print Assumptions T08_no_missing_addr.
 
-(* LOCAL / UNKNOWN headers, and connections whose header could not be read, report the socket's own addresses *)
-Theorem T08_local_uses_socket : forall (cs : list str) sock,
-  match read_chunked src_cfg cs with
-  | Ok h _ => h_local h = true -> remote_addr src_cfg (read_chunked src_cfg cs) sock = Some sock /\
-                                   local_addr src_cfg (read_chunked src_cfg cs) sock = Some sock
-  | Err _ _ => remote_addr src_cfg (read_chunked src_cfg cs) sock = Some sock /\
-               local_addr src_cfg (read_chunked src_cfg cs) sock = Some sock
-  end.
-Proof. exact (fun cs sock =>
-  match read_chunked src_cfg cs as r return read_chunked src_cfg cs = r -> match r with Ok h _ => _ | Err _ _ => _ end with
-  | Ok h rest => fun E Hl => conn_addr_local rd_chunks src_cfg cs sock h rest E Hl
-  | Err t rest => fun E => conn_addr_err rd_chunks src_cfg cs sock t rest E
-  end eq_refl). Qed.
+(* LOCAL / UNKNOWN headers report the socket's own addresses ... *)
+Theorem T08_local_uses_socket : forall (cs : list str) sock h rest,
+  read_chunked src_cfg cs = Ok h rest -> h_local h = true ->
+  remote_addr src_cfg (read_chunked src_cfg cs) sock = Some sock /\ local_addr src_cfg (read_chunked src_cfg cs) sock = Some sock.
+Proof. exact (conn_addr_local rd_chunks src_cfg). Qed.
 Print Assumptions T08_local_uses_socket.
+
+(* ... and so do connections whose header could not be read (their Read fails with the header error) *)
+Theorem T08_failed_header_uses_socket : forall (cs : list str) sock t rest,
+  read_chunked src_cfg cs = Err t rest ->
+  remote_addr src_cfg (read_chunked src_cfg cs) sock = Some sock /\ local_addr src_cfg (read_chunked src_cfg cs) sock = Some sock.
+Proof. exact (conn_addr_err rd_chunks src_cfg). Qed.
+Print Assumptions T08_failed_header_uses_socket.
 
 (* What the machinery found on the pinned tree (model of snapshot 5024b31). *)
 Theorem T08_no_missing_addr_refuted_on_pinned_tree :
